@@ -481,8 +481,12 @@ def eval_case(ctx: Ctx, c: dict):
         t = c["text"]
         cls, v, e = guarded(lambda: dns.ttl.from_text(t))
         report(ctx, "ttl.from_text", cls, rep, f"ttl.from_text({t!r}) raised {e!r}")
+        if v is not None and not (isinstance(v, int) and 0 <= v <= 0xFFFFFFFF):
+            # "every value returned can be rendered to text and wire again": a TTL is a 32-bit field
+            ctx.fail("C04/ttl.from_text/out-of-range-value", f"ttl.from_text({t[:80]!r}) returned a value outside 0..2**32-1 ({v.bit_length() if isinstance(v, int) else type(v).__name__} bits)", rep)
         if all(ord(ch) < 128 for ch in t):
-            ctx.corr(f"c04.ttl {hx(t.encode('ascii'))}", (f"ok {v}" if v is not None else f"err {type(e).__name__}"), c)
+            vs = None if v is None else (str(v) if isinstance(v, int) and v.bit_length() <= 64 else "huge")
+            ctx.corr(f"c04.ttl {hx(t.encode('ascii'))}", (f"ok {vs}" if v is not None else f"err {type(e).__name__}"), c)
     elif k == "rdata.text":
         t = c["text"]
         origin = dns.name.from_text("example.") if c.get("origin") else None
@@ -743,6 +747,10 @@ def generate(ctx: Ctx, scale: int, rng):
             t = mutate_text(rng, t)
         if rng.chance(1, 25):
             t = rng.choice(["1", "0", "9"]) * rng.choice([4299, 4300, 4301, 5000]) + rng.choice(["", "5", "s", "w"])
+        if rng.chance(1, 8):
+            # the 32-bit boundary reached through the units syntax
+            t = rng.choice(["7101w", "7102w", "49710d", "49711d", "1193046h", "1193047h", "71582788m", "71582789m", "4294967295s",
+                            "4294967296s", "49710d6h28m15s", "49710d6h28m16s", "7101w3d6h28m15s", "7101w3d6h28m16s", "1w4294967295s"])
         c = {"kind": "ttl", "text": t}
         ctx.case(("ttl", t), sample=c)
         eval_case(ctx, c)
@@ -776,7 +784,7 @@ def generate(ctx: Ctx, scale: int, rng):
             eval_case(ctx, c2)
     BAD_LINES = ["x IN NOSUCHTYPE 1", "x IN A 999.1.1.1", "x IN A", "x 300 IN MX ten mail", "x IN AAAA 1.2.3.4", "x IN TXT \"unterminated",
                  "$TTL", "$TTL abc", "$ORIGIN", "$NOSUCH foo", "x IN SOA a. b. 1 2 3 4", "\\300 IN A 1.2.3.4", "x..y IN A 1.2.3.4",
-                 "x IN A 1.2.3.4 extra", "x 99999999999 IN A 1.2.3.4", "$GENERATE 1-3 a$ NOSUCHTYPE x", "$GENERATE 3-1 a$ A 1.2.3.4",
+                 "x IN A 1.2.3.4 extra", "x 99999999999 IN A 1.2.3.4", "x 7102w IN A 1.2.3.4", "$TTL 49711d", "x 4294967296s IN A 1.2.3.4", "$GENERATE 1-3 a$ NOSUCHTYPE x", "$GENERATE 3-1 a$ A 1.2.3.4",
                  "x IN NSEC . TYPE99999", ") x IN A 1.2.3.4", "x IN CAA 0 issue", "x IN LOC 91 0 0 N 0 0 0 E 0"]
     for _ in range(n(400)):
         k = rng.range(1, 8)
